@@ -231,6 +231,68 @@ func checkC05(c *core.Ctx) {
 					return false
 				}
 			}
+			// if lr, ok := r.Reader.(*io.LimitedReader); … { … }: looking at how much
+			// the installed limiter has left moves nothing, as long as the limiter
+			// so obtained is only read (lr.N in expressions)
+			if ifs, isIf := n.(*ast.IfStmt); isIf && ifs.Init != nil {
+				if ias, ok := ifs.Init.(*ast.AssignStmt); ok && ias.Tok == token.DEFINE && len(ias.Lhs) == 2 && len(ias.Rhs) == 1 {
+					if ta, ok := ast.Unparen(ias.Rhs[0]).(*ast.TypeAssertExpr); ok && wire.Canon(ta.X) == "r.Reader" && ta.Type != nil && wire.Canon(ta.Type) == "*io.LimitedReader" {
+						lr := wire.Canon(ias.Lhs[0])
+						onlyRead := true
+						var visit func(k ast.Node, lhs bool)
+						visit = func(k ast.Node, lhs bool) {
+							ast.Inspect(k, func(q ast.Node) bool {
+								switch y := q.(type) {
+								case *ast.AssignStmt:
+									if y == ias {
+										return false
+									}
+									for _, l := range y.Lhs {
+										visit(l, true)
+									}
+									for _, r := range y.Rhs {
+										visit(r, false)
+									}
+									return false
+								case *ast.IncDecStmt:
+									visit(y.X, true)
+									return false
+								case *ast.SelectorExpr:
+									if wire.Canon(y.X) == lr {
+										if y.Sel.Name != "N" || lhs {
+											onlyRead = false
+										}
+										return false
+									}
+								case *ast.Ident:
+									if y.Name == lr {
+										onlyRead = false
+									}
+								}
+								return true
+							})
+						}
+						visit(ifs.Cond, false)
+						visit(ifs.Body, false)
+						if ifs.Else != nil {
+							visit(ifs.Else, false)
+						}
+						if onlyRead {
+							// the rest of the statement is still looked at
+							ast.Inspect(ifs.Body, func(q ast.Node) bool {
+								if as2, ok := q.(*ast.AssignStmt); ok && len(as2.Lhs) == 1 && len(as2.Rhs) == 1 && wire.Canon(as2.Lhs[0]) == "r.Reader" && wire.Canon(as2.Rhs[0]) == l.BaseVar {
+									return false // restore before an early return
+								}
+								if sel, ok := q.(*ast.SelectorExpr); ok && wire.Canon(sel) == "r.Reader" {
+									bad = "r.Reader used outside the save/install/restore statements"
+								}
+								return true
+							})
+							return false
+						}
+					}
+				}
+			}
 			if sel, ok := n.(*ast.SelectorExpr); ok && wire.Canon(sel) == "r.Reader" {
 				bad = "r.Reader used outside the save/install/restore statements"
 			}
